@@ -1,4 +1,4 @@
-import PikaVerif.Lemmas.Deque3
+import PikaVerif.Lemmas.DequeTag2
 /-!
 # C17 — concurrent queues return every element exactly once (lock-free deque, back-end adapters)
 
@@ -123,7 +123,7 @@ theorem C17_deque_pop_false_only_if_empty_partial (n : Nat) (log : List Ev) (s s
     (hpc : s.pc t = .popLd d) (hstep : step s (.ld t a) = some s')
     (hret : s'.pc t = .retn false 0) : contents s = [] := by
   have hi := inv_of_accepted h hs
-  simp only [step] at hstep
+  simp only [step, stepG] at hstep
   split at hstep
   case isFalse => simp at hstep
   rename_i hg
@@ -169,6 +169,270 @@ theorem C17_deque_seq_refines_list (log : List Ev) (s s' : St) (e : Ev)
   intro t d a he hpc hret
   subst he
   exact C17_deque_pop_false_only_if_empty_partial 1 log s s' h (stale_mono hstep hs') t a d hpc hstep hret
+
+/-! ## Follow-up C17s (1): when exactly do the concurrent theorems hold for the pinned tree?
+
+The hypothesis `stale = false` of the `_partial` theorems is a flag of the model.  Here it is
+replaced by a condition **on the log**, phrased in terms of node recycling, computed by the
+monitor `Deque.Mon` that runs beside the acceptor (`Deque.stepM`, `Lemmas/DequeTag.lean`):
+
+* a thread that passed the second `anchor_ != lrs` re-check of `stabilize_left/right` (event
+  `chk … true` at `stChk2`) holds a *link snapshot* `(prev, prevnext)` until its link CAS;
+* `dirty t` — node `prev` was handed to `pool_.deallocate` (event `free`) while `t` held it;
+* `aba` — a link CAS **succeeded** although the thread's snapshot was dirty.
+
+`NoRecycledCas n log` ("no link CAS succeeds on a node that was freed after the thread took its
+snapshot of it") is what hazard pointers would enforce.  Recycling as such is allowed, also of a
+snapshotted node, as long as the late CAS fails. -/
+
+/-- the log condition: running model + recycling monitor over `log` never raises `aba` -/
+def NoRecycledCas (n : Nat) (log : List Ev) : Prop :=
+  ∀ s m, runLog (stepM false) (init n, mon0) log = some (s, m) → m.aba = false
+
+/-- **Characterisation (sufficiency).**  For every number of threads and every accepted log of the
+    pinned tree's model: if no link CAS succeeded on a node freed under the thread's snapshot, then
+    no stabilisation link CAS was stale — so every `_partial` theorem above applies. -/
+theorem C17_deque_stale_only_by_recycling (n : Nat) (log : List Ev) (s : St)
+    (h : runLog step (init n) log = some s) (hr : NoRecycledCas n log) : s.stale = false := by
+  obtain ⟨m, hm⟩ := runM_exists (fx := false) mon0 h
+  exact (stale_false_of_aba_false hm (hr s m hm)).1
+
+/-- **Characterisation (exactness).**  Along every run of the pinned tree's model with the recycling
+    monitor: a stabilisation link CAS was stale **iff** a link CAS succeeded on a node that had been
+    freed while the thread held its snapshot of it.  So `stale = false` *is* the recycling
+    condition: `NoRecycledCas` is not merely sufficient for the `_partial` theorems, it is their
+    hypothesis restated on the log. -/
+theorem C17_deque_stale_iff_recycled_cas (n : Nat) (log : List Ev) (s : St) (m : Mon)
+    (h : runLog (stepM false) (init n, mon0) log = some (s, m)) :
+    s.stale = false ↔ m.aba = false :=
+  ⟨aba_false_of_stale_false h, fun hm => (stale_false_of_aba_false h hm).1⟩
+
+/-- **Exactly once, pinned tree, under the recycling condition** (all thread counts, operation
+    mixes and interleavings): conservation as a multiset, nothing popped twice or invented, drained
+    = pushed; the anchor/links describe the chain; every step refines the list deque. -/
+theorem C17_deque_conc_norecycle (n : Nat) (log : List Ev) (s : St)
+    (h : runLog step (init n) log = some s) (hr : NoRecycledCas n log) :
+    s.pushed.Perm (s.popped ++ contents s) ∧
+    (∀ v, s.popped.count v ≤ s.pushed.count v) ∧
+    (s.chain = [] → s.popped.Perm s.pushed) ∧
+    (s.pushed.Nodup → s.popped.Nodup) ∧
+    Glob s.anchor s.chain s.nodes s.used := by
+  have hs := C17_deque_stale_only_by_recycling n log s h hr
+  have hc := C17_deque_conc_partial n log s h hs
+  exact ⟨hc.1, hc.2.1, hc.2.2, C17_deque_no_duplicate_partial n log s h hs,
+    (C17_deque_chain_partial n log s h hs).1⟩
+
+/-- **Linearizability, pinned tree, under the recycling condition**: if the log extended by `e`
+    satisfies the condition, the step `e` is a stutter, an insert at an end, or the removal of the
+    end element handed to the popping thread; and a pop answers "empty" only on the empty deque. -/
+theorem C17_deque_refines_list_norecycle (n : Nat) (log : List Ev) (s s' : St) (e : Ev)
+    (h : runLog step (init n) log = some s) (hstep : step s e = some s')
+    (hr : NoRecycledCas n (log ++ [e])) :
+    Lin s s' ∧ (∀ t d a, e = .ld t a → s.pc t = .popLd d → s'.pc t = .retn false 0 → contents s = []) := by
+  have h' : runLog step (init n) (log ++ [e]) = some s' := by
+    rw [runLog_append, h]; simp [runLog, hstep]
+  have hs' := C17_deque_stale_only_by_recycling n (log ++ [e]) s' h' hr
+  refine ⟨C17_deque_refines_list_partial n log s s' e h hstep hs', ?_⟩
+  intro t d a he hpc hret
+  subst he
+  exact C17_deque_pop_false_only_if_empty_partial n log s s' h (stale_mono hstep hs') t a d hpc hstep hret
+
+/-- **The finding violates exactly this condition.**  On the witness log of the defect the
+    recycling monitor fires: thread 0 takes its snapshot of node 3 (`chk 0 true`), node 3 is freed
+    twice and re-allocated under it (`free 1 3`), thread 0's link CAS then succeeds (`lcas 0 true`):
+    `aba = true`; on the log without that CAS and what follows it the condition still holds. -/
+theorem C17_deque_witness_is_recycled_cas :
+    (runLog (stepM false) (init 2, mon0) abaLog).map (fun x => (x.2.aba, x.1.stale)) = some (true, true) ∧
+    (runLog (stepM false) (init 2, mon0) (abaLog.take 93)).map
+      (fun x => (x.2.aba, x.2.dirty 0, x.1.stale, x.1.pc 0)) =
+      some (false, true, false, .stLink .pushDone true ⟨3, 1, 1, 5⟩ ⟨3, 0⟩ ⟨2, 0⟩) ∧
+    ¬ NoRecycledCas 2 abaLog := by
+  refine ⟨by decide, by decide, ?_⟩
+  intro hr
+  have h : (runLog (stepM false) (init 2, mon0) abaLog).map (fun x => x.2.aba) = some true := by decide
+  cases hx : runLog (stepM false) (init 2, mon0) abaLog with
+  | none => simp [hx] at h
+  | some x =>
+    obtain ⟨s, m⟩ := x
+    have := hr s m hx
+    simp [hx, this] at h
+
+/-! ## Follow-up C17s (1b): the weakest condition proved sufficient — no stale link CAS on a live link
+
+`stale = false` (equivalently: no CAS on a node freed under the snapshot) is sufficient but not
+necessary: random schedules of the real code do produce stale link CASes that succeed and do no
+harm.  `harmFreeB false (init n) log` (`Lemmas/DequeHarm.lean`, a decidable test run beside the
+acceptor) only forbids a stale link CAS that hits a **live** link: one of a chain node that is not
+the end node on that side, the already stored inward link of another push's private node, or the
+freelist's word of a free node.  Chain of implications, all proved:
+`NoRecycledCas` ⟹ `stale = false` ⟹ `harmFreeB`; the last one is strict (`harmlessStaleLog`). -/
+
+/-- **Exactly once, pinned tree, weakest proved condition.**  For every thread count and every
+    accepted log without a stale link CAS on a live link: conservation as a multiset, nothing popped
+    twice or invented, drained = pushed, distinct pushes give distinct pops, and the anchor and
+    links describe the chain. -/
+theorem C17_deque_conc_harmfree (n : Nat) (log : List Ev) (s : St)
+    (h : runLog step (init n) log = some s) (hf : harmFreeB false (init n) log = true) :
+    s.pushed.Perm (s.popped ++ contents s) ∧
+    (∀ v, s.popped.count v ≤ s.pushed.count v) ∧
+    (s.chain = [] → s.popped.Perm s.pushed) ∧
+    (s.pushed.Nodup → s.popped.Nodup) ∧
+    Glob s.anchor s.chain s.nodes s.used := by
+  have hi := inv_of_harmFree h hf
+  have hc := conc_of_inv hi
+  exact ⟨hc.1, hc.2.1, hc.2.2, fun hd => (List.nodup_append.1 (hi.cons.nodup_iff.1 hd)).1, hi.glob⟩
+
+/-- **Linearizability, pinned tree, weakest proved condition**: if the log extended by `e` has no
+    harmful link CAS, step `e` refines the list deque and a pop answers "empty" only when empty. -/
+theorem C17_deque_refines_list_harmfree (n : Nat) (log : List Ev) (s s' : St) (e : Ev)
+    (h : runLog step (init n) log = some s) (hstep : step s e = some s')
+    (hf : harmFreeB false (init n) log = true) :
+    Lin s s' ∧ (∀ t d a, e = .ld t a → s.pc t = .popLd d → s'.pc t = .retn false 0 → contents s = []) := by
+  have hi := inv_of_harmFree h hf
+  refine ⟨step_lin hi hstep, ?_⟩
+  intro t d a he hpc hret
+  subst he
+  exact pop_false_only_if_empty_G hi t a d hpc hstep hret
+
+/-- **The condition is weaker than `stale = false`** (hence than `NoRecycledCas`). -/
+theorem C17_deque_harmfree_of_not_stale (n : Nat) (log : List Ev) (s : St)
+    (h : runLog step (init n) log = some s) (hs : s.stale = false) :
+    harmFreeB false (init n) log = true :=
+  harmFree_of_stale_false h hs
+
+/-- **The finding violates exactly this condition**: the witness log fails the test, at the link
+    CAS of thread 0 (position 93): the anchor has changed, node 3 is in the chain `[3, 2]` and is
+    not its right end, so its `right` link is live. -/
+theorem C17_deque_witness_is_harmful :
+    harmFreeB false (init 2) abaLog = false ∧ harmFreeB false (init 2) (abaLog.take 93) = true ∧
+    (runLog step (init 2) (abaLog.take 93)).map
+      (fun s => (s.chain, s.anchor, harmStep s (.lcas 0 true))) = some ([3, 2], ⟨3, 2, 2, 14⟩, false) := by
+  refine ⟨by decide, by decide, by decide⟩
+
+/-- A **harmless stale link CAS with recycling** (non-vacuity and strictness): thread 0 is stopped
+    before the link CAS of its `push_right(3)` holding the snapshot `1->right = (null, 0)`; thread 1
+    finishes the stabilisation, pops 3 and 1 (both nodes go to the freelist), pushes 7 into the
+    re-allocated node 1; thread 0's CAS then succeeds on the recycled node (`stale`, and the
+    recycling monitor fires), but node 1 is the right end of the chain: nothing is lost. -/
+def harmlessStaleLog : List Ev :=
+  [.inv 1 true false 1, .alloc 1 1, .ld 1 ⟨0, 0, 0, 0⟩, .cas 1 true, .ret 1 true 0,
+   .inv 0 true true 3, .alloc 0 2, .ld 0 ⟨1, 1, 0, 1⟩, .link 0 2 1, .cas 0 true,
+   .rd 0 ⟨1, 0⟩, .chk 0 true, .rd 0 ⟨0, 0⟩, .chk 0 true,
+   .inv 1 false true 0, .ld 1 ⟨1, 2, 1, 2⟩, .rd 1 ⟨1, 0⟩, .chk 1 true, .rd 1 ⟨0, 0⟩, .chk 1 true,
+   .lcas 1 true, .cas 1 true, .ld 1 ⟨1, 2, 0, 3⟩, .chk 1 true, .rd 1 ⟨1, 0⟩, .cas 1 true,
+   .free 1 2, .ret 1 true 3,
+   .inv 1 false false 0, .ld 1 ⟨1, 1, 0, 4⟩, .cas 1 true, .free 1 1, .ret 1 true 1,
+   .inv 1 true false 7, .alloc 1 1, .ld 1 ⟨0, 0, 0, 5⟩, .cas 1 true, .ret 1 true 0,
+   .lcas 0 true, .cas 0 false, .ret 0 true 0,
+   .inv 1 false false 0, .ld 1 ⟨1, 1, 0, 6⟩, .cas 1 true, .free 1 1, .ret 1 true 7]
+
+example : (runLog (stepM false) (init 2, mon0) harmlessStaleLog).map
+      (fun x => (x.1.stale, x.2.aba, x.1.pushed, x.1.popped, x.1.chain)) =
+      some (true, true, [7, 3, 1], [7, 1, 3], []) ∧
+    harmFreeB false (init 2) harmlessStaleLog = true := by
+  refine ⟨by decide, by decide⟩
+
+/-- ordinary concurrent history with recycling that satisfies all three conditions: the helped
+    push / pop example below, and the witness of the defect cut before the fatal CAS (six pushes,
+    five pops, nodes 1-3 recycled several times, thread 0's snapshot node freed twice). -/
+example : (runLog (stepM false) (init 2, mon0) (abaLog.take 93)).map
+      (fun x => (x.1.stale, x.2.aba, x.1.pushed, x.1.popped, contents x.1)) =
+      some (false, false, [6, 5, 4, 3, 2, 1], [4, 3, 2, 1], [6, 5]) := by decide
+
+/-! ## Follow-up C17s (2): the repaired code (`fix:` commit on deque.hpp, model `stepF = stepG true`)
+
+`alloc_node` keeps and increments the tags it finds in the recycled memory and the inward-link
+store of `push_left/right` increments the link's tag: the tag of a link word grows with every
+write for the whole life of the deque.  Then a link CAS can only succeed if the link was not
+written since it was loaded, and (`Lemmas/DequeTag.lean`, invariant `TagInv`) the link *is* written
+before the anchor can leave the unstable state the snapshot belongs to — so a link CAS is never
+stale and the **unrestricted** statement holds. -/
+
+/-- **Exactly once, repaired code, full strength** — the statement `C17_deque_conc` that is false
+    of the pinned tree: for every number of threads, every operation mix and every interleaving,
+    with helping and node recycling: no link CAS is stale, pushed = popped + contents as multisets,
+    nothing is popped twice or invented, and once the chain is empty popped = pushed. -/
+theorem C17_deque_fixed_conc (n : Nat) (log : List Ev) (s : St)
+    (h : runLog stepF (init n) log = some s) :
+    s.stale = false ∧
+    s.pushed.Perm (s.popped ++ contents s) ∧
+    (∀ v, s.popped.count v ≤ s.pushed.count v) ∧
+    (s.chain = [] → s.popped.Perm s.pushed) := by
+  have hi := stale_false_fixed h
+  exact ⟨hi.1, conc_of_inv hi.2⟩
+
+/-- **No element is delivered twice, repaired code, full strength.** -/
+theorem C17_deque_fixed_no_duplicate (n : Nat) (log : List Ev) (s : St)
+    (h : runLog stepF (init n) log = some s) (hd : s.pushed.Nodup) : s.popped.Nodup := by
+  have hi := (stale_false_fixed h).2
+  exact (List.nodup_append.1 (hi.cons.nodup_iff.1 hd)).1
+
+/-- **The anchor and the links describe the chain, repaired code, full strength.** -/
+theorem C17_deque_fixed_chain (n : Nat) (log : List Ev) (s : St)
+    (h : runLog stepF (init n) log = some s) :
+    Glob s.anchor s.chain s.nodes s.used ∧ (s.anchor.l = 0 ↔ s.chain = []) ∧
+    (s.anchor.r = 0 ↔ s.chain = []) := by
+  have hi := (stale_false_fixed h).2
+  refine ⟨hi.glob, ⟨fun h0 => hi.glob.nil_of_end false (by simpa [Anchor.endp] using h0), ?_⟩,
+    ⟨fun h0 => hi.glob.nil_of_end true (by simpa [Anchor.endp] using h0), ?_⟩⟩
+  · intro hc; have := hi.glob.hd; rw [hc] at this; simpa using this
+  · intro hc; have := hi.glob.lst; rw [hc] at this; simpa using this
+
+/-- **Linearizability, repaired code, full strength**: every accepted step of every execution is
+    a stutter, an insert at end `d`, or the removal of the element at end `d` handed to the popping
+    thread (`Lin`); a pop answers "empty" only when the deque is empty (so a pop on a non-empty
+    deque, quiescent or not, never fails). -/
+theorem C17_deque_fixed_refines_list (n : Nat) (log : List Ev) (s s' : St) (e : Ev)
+    (h : runLog stepF (init n) log = some s) (hstep : stepF s e = some s') :
+    Lin s s' ∧ (∀ t d a, e = .ld t a → s.pc t = .popLd d → s'.pc t = .retn false 0 → contents s = []) := by
+  have hi := (stale_false_fixed h).2
+  refine ⟨step_lin hi hstep, ?_⟩
+  intro t d a he hpc hret
+  subst he
+  exact pop_false_only_if_empty_G hi t a d hpc hstep hret
+
+/-- Event log of the **repaired** code under the directed schedule of the finding
+    (`findings/C17-aba-link.case`, node addresses renamed 1, 2, 3; note the link tags that now
+    survive recycling, e.g. `.rd 1 ⟨2, 7⟩`). -/
+def fixedAbaLog : List Ev :=
+  [.inv 0 true true 3, .alloc 0 1, .inv 1 true false 1, .alloc 1 2, .ld 1 ⟨0, 0, 0, 0⟩,
+   .cas 1 true, .ret 1 true 0, .inv 1 true false 2, .alloc 1 3, .ld 1 ⟨2, 2, 0, 1⟩, .link 1 3 2,
+   .cas 1 true, .rd 1 ⟨2, 2⟩, .chk 1 true, .rd 1 ⟨0, 1⟩, .chk 1 true, .lcas 1 true, .cas 1 true,
+   .ret 1 true 0, .inv 1 false true 0, .ld 1 ⟨3, 2, 0, 3⟩, .chk 1 true, .rd 1 ⟨3, 2⟩, .cas 1 true,
+   .ld 0 ⟨3, 3, 0, 4⟩, .link 0 1 3, .cas 0 true, .rd 0 ⟨3, 2⟩, .chk 0 true, .rd 0 ⟨2, 2⟩,
+   .chk 0 true, .free 1 2, .ret 1 true 1, .inv 1 false false 0, .ld 1 ⟨3, 1, 1, 5⟩, .rd 1 ⟨3, 2⟩,
+   .chk 1 true, .rd 1 ⟨2, 2⟩, .chk 1 true, .lcas 1 true, .cas 1 true, .ld 1 ⟨3, 1, 0, 6⟩,
+   .chk 1 true, .rd 1 ⟨1, 3⟩, .cas 1 true, .free 1 3, .ret 1 true 2, .inv 1 true true 4,
+   .alloc 1 3, .ld 1 ⟨1, 1, 0, 7⟩, .link 1 3 1, .cas 1 true, .rd 1 ⟨1, 3⟩, .chk 1 true,
+   .rd 1 ⟨0, 1⟩, .chk 1 true, .lcas 1 true, .cas 1 true, .ret 1 true 0, .inv 1 true true 5,
+   .alloc 1 2, .ld 1 ⟨1, 3, 0, 9⟩, .link 1 2 3, .cas 1 true, .rd 1 ⟨3, 4⟩, .chk 1 true,
+   .rd 1 ⟨0, 4⟩, .chk 1 true, .lcas 1 true, .cas 1 true, .ret 1 true 0, .inv 1 false false 0,
+   .ld 1 ⟨1, 2, 0, 11⟩, .chk 1 true, .rd 1 ⟨3, 2⟩, .cas 1 true, .free 1 1, .ret 1 true 3,
+   .inv 1 false false 0, .ld 1 ⟨3, 2, 0, 12⟩, .chk 1 true, .rd 1 ⟨2, 5⟩, .cas 1 true, .free 1 3,
+   .ret 1 true 4, .inv 1 true false 6, .alloc 1 3, .ld 1 ⟨2, 2, 0, 13⟩, .link 1 3 2, .cas 1 true,
+   .rd 1 ⟨2, 7⟩, .chk 1 true, .rd 1 ⟨3, 4⟩, .lcas 0 false, .ret 0 true 0, .done 0, .cas 1 true,
+   .ret 1 true 0, .inv 1 false false 0, .ld 1 ⟨3, 2, 0, 15⟩, .chk 1 true, .rd 1 ⟨2, 7⟩,
+   .cas 1 true, .free 1 3, .ret 1 true 6, .inv 1 false false 0, .ld 1 ⟨2, 2, 0, 16⟩, .cas 1 true,
+   .free 1 2, .ret 1 true 5, .done 1]
+
+/-- **The directed schedule that failed before passes after the repair.**  The log of the repaired
+    code under the schedule of the finding is an accepted log of the repaired model in which thread
+    0's late link CAS fails (`.lcas 0 false` — the only difference in control flow to `abaLog`), all
+    six values are popped exactly once, the deque ends empty, no link CAS was stale; and the pinned
+    tree's model does not accept this log (the tie tells the two disciplines apart). -/
+theorem C17_deque_fixed_aba_schedule :
+    (runLog stepF (init 2) fixedAbaLog).map (fun s => (s.pushed, s.popped, s.chain, s.stale, s.pc 0, s.pc 1)) =
+      some ([6, 5, 4, 3, 2, 1], [5, 6, 4, 3, 2, 1], [], false, .fin, .fin) ∧
+    runLog step (init 2) fixedAbaLog = none ∧ runLog stepF (init 2) abaLog = none := by
+  refine ⟨by decide, ?_, ?_⟩
+  · have h : (runLog step (init 2) fixedAbaLog).isSome = false := by decide
+    cases hx : runLog step (init 2) fixedAbaLog with
+    | none => rfl
+    | some x => simp [hx] at h
+  · have h : (runLog stepF (init 2) abaLog).isSome = false := by decide
+    cases hx : runLog stepF (init 2) abaLog with
+    | none => rfl
+    | some x => simp [hx] at h
 
 /-! ## Non-vacuity -/
 
